@@ -83,8 +83,28 @@ func c04Replay(c json.RawMessage) Verdict {
 			}
 		}
 	}
+	// corollary of Seqhash!Accepts (every letter must be in the type's alphabet): the same word with one letter
+	// replaced by a letter outside ASCII is rejected under every type.  The letters are chosen so that a byte-wise
+	// or low-byte comparison would mistake them for alphabet letters (U+0141 -> 'A', U+0154 -> 'T', ...); the two
+	// Unicode letters whose upper-case form IS an ASCII letter (U+017F, U+0131) are left out: the case clause
+	// leaves them open.
+	if len(cs.S) >= 1 && len(cs.Cases) > 0 {
+		r := []rune(cs.S)
+		h := 0
+		for _, x := range r {
+			h = h*31 + int(x)
+		}
+		r[h%len(r)] = nonASCII[h%len(nonASCII)]
+		for _, k := range cs.Cases {
+			if got, err := seqhash.Hash(string(r), k.Type, k.Circ, k.Ds); err == nil {
+				return bad("Hash(%q,%q,%v,%v) accepted (%s) although %q is outside every alphabet", string(r), k.Type, k.Circ, k.Ds, got, string(r[h%len(r)]))
+			}
+		}
+	}
 	return ok(len(cs.S) >= 1)
 }
+
+var nonASCII = []rune{0x141, 0x154, 0x147, 0x143, 0x14C, 0x142, 0x155, 0xE9, 0xDF, 0x3A9, 0x3B1, 0x4E2D, 0x1F9EC, 0x212A, 0x155, 0x241, 0x1041}
 
 func rcIUPAC(s string) string {
 	m := map[byte]byte{'A': 'T', 'T': 'A', 'C': 'G', 'G': 'C', 'R': 'Y', 'Y': 'R', 'S': 'S', 'W': 'W', 'K': 'M', 'M': 'K',
@@ -281,9 +301,14 @@ func c04Record(tier string, seed int64, emit func(interface{}), prop string) {
 			alpha = "ACDEFGHIKLMNPQRSTVWYUO*BXZ"
 		}
 		s := rnd(1+rng.Intn(300), alpha)
-		if rng.Intn(2) == 0 {
+		switch rng.Intn(4) {
+		case 0, 1:
 			x := []byte(s)
 			x[rng.Intn(len(x))] = byte(33 + rng.Intn(94))
+			s = string(x)
+		case 2: // a letter outside ASCII (TLC sees it as one character outside every alphabet)
+			x := []rune(s)
+			x[rng.Intn(len(x))] = nonASCII[rng.Intn(len(nonASCII))]
 			s = string(x)
 		}
 		if rng.Intn(3) == 0 {
